@@ -585,7 +585,7 @@ impl Check for C09 {
                     p.cfg.read_card_timeout = 15; // 17 s per packet
                     p.pt.pace_ms = 12_000;
                 } else {
-                    // 60 s per packet; the handshake as a whole (two paced packets) stays under its 60 s as well
+                    // 60 s per packet (the handshake is not paced)
                     p.cfg.read_card_timeout = 60;
                     p.pt.pace_ms = 25_000;
                 }
